@@ -30,7 +30,7 @@ EXPLANATION = (
     "are resolved by a C lexer over sysinfo.c / gsm48_rr.c / sysinfo.h; trxcon's trx_if_cmd_setfh is checked on "
     "its clang AST (snprintf size tracking, empty allocation rejected).")
 ASSUMPTIONS = [
-    "clang 14 parses the sliced function exactly as the layer23 build would (prelude models only declarations: stdint.h, EINVAL sign, struct gsm_sysinfo_freq {uint8_t mask;}, FREQ_TYPE_* values and array extents read from sysinfo.h, LOGP as a no-op)",
+    "clang 14 parses the sliced function exactly as the layer23 build would (prelude models only declarations: stdint.h, EINVAL sign, struct gsm_sysinfo_freq {uint8_t mask;}, FREQ_TYPE_* values and array extents read from sysinfo.h, LOGP reduced to the evaluation of its value arguments)",
     "int is 32 bit: no counter in the function exceeds 2040, so machine arithmetic coincides with integer arithmetic",
     "the out-parameters do not alias: hopp_len does not point into freq[], hopping[] or the bitmap",
     "callers pass at least `len` readable bitmap octets (the SI4 decoder checks payload_len >= 2 + data[1]; the LV in gsm48_rr_cd is length-checked on reception)",
@@ -661,6 +661,11 @@ class FM:
                 out.append(v)
         return out
 
+    def stable(self, node, atom, names):
+        """none of `names` is written between the test of `atom` and `node`"""
+        return all(node.id not in self.reach_succ(w.node, skip=[atom[2]])
+                   for v in names for w in self.writes.get(v, []))
+
     def upper_bounds(self, atoms, var):
         """exclusive upper-bound terms for V(var) implied by atoms"""
         out = []
@@ -675,9 +680,6 @@ class FM:
         return out
 
     # -- loops ----------------------------------------------------------------
-    def loop_stmt_of(self, node):
-        return self.g.loop_of(node) if node.ast is not None else None
-
     def loop(self, stmt):
         """counted-loop facts of a For/While statement (AnalysisError if it
         is not a counted loop)"""
@@ -836,7 +838,7 @@ def build_slice(L):
         fm = struct_members(ie, "gsm_sysinfo_freq")
         if fm.get("mask", (None,))[0] != "uint8_t":
             raise AnalysisError("struct gsm_sysinfo_freq.mask is not uint8_t in %s" % F_IE)
-    pre = ["#include <stdint.h>", "#define EINVAL 22", "#define LOGP(ss, level, fmt, args...) ((void)0)"]
+    pre = ["#include <stdint.h>", "#define EINVAL 22", "#define LOGP(ss, level, fmt, args...) ((void)(0, ## args))"]
     pre += ["#define %s 0x%02x" % (k, v) for k, v in sorted(ft.items())]
     pre += ["struct gsm_sysinfo_freq { uint8_t mask; } __attribute__ ((packed));",
             "struct gsm48_sysinfo { struct gsm_sysinfo_freq freq[%d]; uint16_t hopping[%d]; uint8_t hopp_len; };" % (
@@ -1177,7 +1179,7 @@ class Dec:
             return False, "`%s` is not filled through a single 0-based counter" % arr
         if sub[0] != "v":
             raise AnalysisError("element index `%s` unclassifiable" % X.show(sub))
-        init = any(t == ("cmp", "<", sub, X.V(cnt)) and p for (t, p, _, _) in fm.atoms(node))
+        init = any(a[0] == ("cmp", "<", sub, X.V(cnt)) and a[1] and fm.stable(node, a, [sub[1], cnt]) for a in fm.atoms(node))
         if not init:
             return False, "`%s[%s]` is read without the guard `%s < %s` (entry may be unset)" % (arr, sub[1], sub[1], cnt)
         w, lv = self.stores[arr][0]
@@ -1222,7 +1224,7 @@ def r1_gate(L, D):
         seen += 1
         L.ob(R, F_SYS, FN, "array access `%s` is reachable only for %s <= %d (length gate dominates it)" % (ctext(a), D.P_LEN, MAXLEN),
              "%s in 0..%d" % (D.P_LEN, MAXLEN), "%s in %s" % (D.P_LEN, span(dom)), not bad, fm.line(a))
-    L.floor(R, "array accesses in the decoder", seen, 8)
+    L.floor(R, "array accesses in the decoder", seen, 6)
     gates, rejected = 0, set()
     rets = [n for n in fm.g.nodes if n.kind == "stmt" and kind(n.ast) == "ReturnStmt"]
     if fm.g.exit.pred and any(kind(p.ast) != "ReturnStmt" for (p, _) in fm.g.exit.pred if p.ast is not None):
@@ -1385,6 +1387,11 @@ def r4_order(L, D):
         seq, found = None, "candidate range depends on %s" % D.P_LEN
     L.ob(R, F_SYS, FN, "the cell-allocation list is built from the candidates ARFCN 1, 2, ..., %d, 0 in this order" % (N - 1),
          "%d candidates: %s" % (len(want), brief(want)), found, seq == want, fm.line(w.ast))
+    full = [x for (x, ats) in exits_of(fm, li) if not any(
+        cnt and ((t[0] == "cmp" and t[1] == "==" and X.V(cnt) in t[2:] and p) or
+                 (t[0] == "cmp" and t[1] == "<" and t[2] == X.V(cnt) and not p)) for (t, p) in ats)]
+    L.ob(R, F_SYS, FN, "the candidate loop is left early only when the list is full (a test of the fill counter)",
+         "no other early exit", "no other early exit" if not full else "exit at line %s" % fm.nline(full[0]), not full, fm.line(li["stmt"]))
     # FREQ_TYPE_SERV filter on the very ARFCN that is stored
     filt = []
     for (t, p, c, l) in fm.atoms(S):
@@ -1451,8 +1458,11 @@ def r4_order(L, D):
         L.ob(R, F_SYS, FN, "the emitted channel is the list entry with the index of the tested bit", "%s[%s]" % (arr, b), X.show(val),
              val == ("idx", X.V(arr), X.V(b)), fm.line(hw.ast))
         # index past the list ends decoding
-        lim = [(c, l) for (t, p, c, l) in fm.atoms(H) if cnt and t == ("cmp", "<", X.V(b), X.V(cnt)) and p]
+        lim = [(a[2], a[3]) for a in fm.atoms(H) if cnt and a[0] == ("cmp", "<", X.V(b), X.V(cnt)) and a[1] and fm.stable(H, a, [b, cnt])]
         ends = bool(lim) and all(H.id not in fm.reach_succ(c, label=(not l)) for (c, l) in lim)
+        other = [x for (x, ats) in exits_of(fm, l2) if not any(t == ("cmp", "<", X.V(b), X.V(cnt)) and not p for (t, p) in ats)]
+        L.ob(R, F_SYS, FN, "the bitmap walk is left early only for a set bit past the list", "no other early exit",
+             "no other early exit" if not other else "exit at line %s" % fm.nline(other[0]), not other, fm.line(l2["stmt"]))
         frozen = cnt is not None and not any(wc.node.id in fm.reach_succ(l2["cond"]) for wc in fm.writes.get(cnt, []))
         L.ob(R, F_SYS, FN, "a set bit whose index is not below the number of list entries ends decoding: nothing is emitted for it or after it",
              "store guarded by `%s < %s`, the other branch never reaches the store" % (b, cnt),
@@ -1478,6 +1488,23 @@ def r4_order(L, D):
         L.ob(R, F_SYS, FN, "write to the frequency table `%s` only maintains FREQ_TYPE_HOPP and only for SI4" % ctext(fw.ast)[:60],
              "|= / &= ~ FREQ_TYPE_HOPP under `%s`" % D.P_SI4,
              "%s%s" % (ctext(fw.ast)[:60], "" if under else " (not under `%s`)" % D.P_SI4), under and only_hopp, fm.line(fw.ast))
+
+
+def exits_of(fm, li):
+    """early exits of a loop: [(node, [(term, pol)] tests inside the loop under which the exit edge is taken)]"""
+    out = []
+    for i in sorted(li["region"]):
+        n = fm.g.nodes[i]
+        if n is li["cond"]:
+            continue
+        for (s, lab) in n.succ:
+            if s.id in li["region"]:
+                continue
+            ats = [(a[0], a[1]) for a in fm.atoms(n) if a[2].id in li["region"] and a[2] is not li["cond"]]
+            if n.kind == "cond" and isinstance(lab, bool):
+                ats += fm.edge_atoms(n, lab)
+            out.append((n, ats))
+    return out
 
 
 def brief(seq):
@@ -1606,7 +1633,7 @@ def r5_setfh(L):
             rej += 1
             v = fm.tu.fold(kids(r.ast)[0]) if kids(r.ast) else None
             L.ob(R, F_TRX, fn, "a return that an empty allocation can reach yields a negative error code", "negative constant",
-                 v if v is not None else ctext(r.ast)[:50], v is not None and v < 0, fm.line(r.ast))
+                 v if v is not None else (ctext(kids(r.ast)[0])[:50] if kids(r.ast) else "void"), v is not None and v < 0, fm.line(r.ast))
     L.floor(R, "returns reachable with an empty allocation (the rejection)", rej, 1)
     # ---- snprintf size tracking
     sn = [(n, c) for (n, c) in fm.calls if ctext(kids(c)[0]) in ("snprintf", "__builtin_snprintf")]
